@@ -307,6 +307,13 @@ class World:
             waiting_reqs = [r["i"] for r in self.reqs if r["state"] == "active" and r["origin"] == origin and not self.pending_delivery(r)]
             if idle_open and waiting_reqs:
                 self.viol.append(("C14", f"connection {idle_open[0].cid} sits idle in the pool while request(s) {waiting_reqs} for the same origin are still waiting for a connection"))
+        # an open connection released by a finished request is kept (idle) or handed to a waiting request - never dropped
+        for cid, conn in self.conns.items():
+            if not conn.share and conn.dropped and getattr(conn.origin, "open_now", False) and not getattr(conn, "drop_reported", False):
+                conn.drop_reported = True
+                msg = f"open connection {cid} was dropped when it was released instead of being kept for reuse or handed to a waiting request"
+                self.viol.append(("C04", msg))
+                self.viol.append(("C14", msg))
         # a non-shareable connection is in at most one place
         for cid, conn in self.conns.items():
             if conn.share:
@@ -356,6 +363,22 @@ class World:
         elif a[0] == "bg":
             self.run_bg(a[1])
         self.invariants()
+
+    def drain_tasks(self):
+        """run every woken task to quiescence (no dial is completed)"""
+        for _ in range(40):
+            progressed = False
+            for r in self.reqs:
+                if r["state"] == "active" and ("req", r["i"]) in self.woken:
+                    self.apply(("poll", r["i"]))
+                    progressed = True
+            for j, t in enumerate(self.bg):
+                if not t["done"] and ("bg", j) in self.woken:
+                    self.apply(("bg", j))
+                    progressed = True
+            if not progressed:
+                return
+        raise Inconclusive("tasks did not reach quiescence in 40 rounds")
 
     def drain(self):
         """let everything that can still happen happen: dials complete successfully, woken tasks run"""
@@ -407,9 +430,14 @@ def scenario_of(cont):
         scn["schedule"] = str(tr)
         if w is not None and any(c == "C14" for c, _ in w.viol):
             scn["family"] = "pool_preempt"
+            if any("was dropped when it was released" in msg for _c, msg in w.viol):
+                scn["chain"] = 1
             protos = [a[1] for a in issues]
             if any(a[0] == "cancel" and a[1] < len(protos) and protos[a[1]] == "h2" for a in tr):
                 scn["abandon"] = "h2"
+        if w is not None and any("was dropped when it was released" in msg for _c, msg in w.viol):
+            scn["family"], scn["chain"] = "pool_preempt", 1
+            return scn
         if w is not None and any(c == "C04" for c, _ in w.viol):
             scn["family"] = "pool_extra_dial"
             cancels = [a[1] for a in tr if a[0] == "cancel"]
@@ -422,10 +450,14 @@ def judge_sched(scn, out):
     if out.get("result", "").startswith(("panic", "crash")):
         return True
     claim = scn.get("claim", "")
+    if "was dropped when it was released" in claim:
+        return out.get("r2") == "timeout" or out.get("r1") == "timeout"
     if "[C03]" in claim:
         return out.get("r1") == "timeout"
     if "[C04]" in claim:
         return int(out.get("dials", "1")) > 1
+    if "was dropped when it was released" in claim:
+        return out.get("r2") == "timeout" or out.get("r1") == "timeout"
     if "[C14]" in claim:
         return out.get("r1") == "timeout"
     return None
@@ -544,6 +576,51 @@ def obligations(prog, src, tier, seed, which="C03", n_req=2, depth=5, classes=("
                     "run": run_preempt, "check": check_preempt, "crosscheck": False,
                     "cex_extract": lambda p, m: dict({"family": "pool_preempt", "cont": int(p.ctx.cfg[0])}, **({"abandon": p.ctx.cfg[3]} if p.ctx.cfg[3] != "none" else {})),
                     "judge": lambda scn, out: out.get("result", "").startswith(("panic", "crash")) or out.get("r1") == "timeout"})
+    if "C14" in classes or "C04" in classes:
+        def run_chain(ctx):
+            cont = ctx.choose([(True, False), (True, True)], "continue_after_preemption")
+            b_polled = ctx.choose([(True, True), (True, False)], "second request polled before the release")
+            ctx.drop_impls = drop_impls
+            ctx.now = z3.IntVal(0)
+            w = World(ctx, fns, cont)
+            ctx.world = w
+            ctx.cfg = (cont, b_polled)
+            # A gets a connection of its own and holds it
+            w.apply(("issue", "h1", 10))
+            w.apply(("poll", 0))
+            w.apply(("dial", 0, "ok"))
+            w.apply(("poll", 0))
+            # B starts dialing, A releases: B is served by A's connection
+            w.apply(("issue", "h1", 10))
+            if b_polled:
+                w.apply(("poll", 1))
+            w.apply(("release", 0, False))
+            w.drain_tasks()
+            if w.reqs[1]["state"] != "holding":
+                raise Inconclusive("second request was not served by the released connection (state %s)" % w.reqs[1]["state"])
+            ctx.first_conn = w.reqs[1]["conn"].cid
+            # B finishes in turn: the connection must go back to the pool (or on to a waiting request)
+            w.apply(("release", 1, False))
+            w.drain_tasks()
+            return w
+
+        def check_chain(p):
+            if p.outcome == "panic":
+                return [("pool protocol panics / deadlocks: " + str(p.value)[:100], False)]
+            w = p.value
+            cid = p.ctx.first_conn
+            idle = [c.cid for c in idle_conns(w.inner, 1)]
+            lbl = "C14" if which != "C04" else "C04"
+            return [(f"[{lbl}] connection {cid}, handed from one request to a waiting one and released again, was dropped when it was released instead of going back to the pool (idle now: {idle}; continue_after_preemption={p.ctx.cfg[0]})", cid in idle),
+                    ("witness:reach", z3.BoolVal(True))]
+
+        obs.append({"name": f"{which.lower()}_handed_over_connection_returns_to_pool", "family": "pool_preempt",
+                    "funcs": ["client::pool::Pool::checkout", "<Checkout as Future>::poll", "<Pooled as Drop>::drop", "<WhenReady as Future>::poll", "<WhenReady as Drop>::drop", "client::pool::PoolInner::push"],
+                    "bound": "request A holds a connection, request B (polled or not) is dialing; A releases (B is served by hand-over), then B releases; both continue_after_preemption settings",
+                    "doc": "a connection that reached a request by hand-over is pool-managed like any other: released again it is kept idle (or handed on), never dropped",
+                    "run": run_chain, "check": check_chain, "crosscheck": False, "loop_bound": 12,
+                    "cex_extract": lambda p, m: {"family": "pool_preempt", "cont": int(p.ctx.cfg[0]), "chain": 1},
+                    "judge": lambda scn, out: out.get("result", "").startswith(("panic", "crash")) or out.get("r2") == "timeout" or out.get("r1") == "timeout"})
     if "C04" in classes:
         def run_waiter_cancel(ctx):
             cont = ctx.choose([(True, False), (True, True)], "continue_after_preemption")
